@@ -28,13 +28,13 @@ class C17(HistoryProperty):
     )
     ASSUMPTIONS = ["backend faults are limited to the kinds the statement lists", "stub bodies are deterministic"]
     REAL = HistoryProperty.REAL
-    STUBS = HistoryProperty.STUBS + ["FaultyCache(Cache): fingerprint-keyed dict with a scripted fault per global call index", "FaultyCacheDefaultExists(Cache): same, relying on the ABC default exists()", "FaultyMemoryCache(MemoryCache): inherited get/set, own (possibly stale) index for exists()"]
+    STUBS = HistoryProperty.STUBS + ["FaultyCache(Cache): fingerprint-keyed dict with a scripted fault per global call index", "FaultyCacheDefaultExists(Cache): same, relying on the ABC default exists()", "FaultyMemoryCache(MemoryCache): inherited get/set, own (possibly stale) index for exists()", "FaultyFront(Cache): delegates to an inner FaultyCache, whose miss signal names the inner object"]
     QUICK = {"runs": 350, "wall": 45}
     THOROUGH = {"runs": 60000, "wall": 540}
     REQUIRED_CACHE = None
 
     def spec_valid(self, spec):
-        if any(n["k"] == "dataset" and n.get("cache") not in ("faulty", "faulty_ne", "faulty_mc") for n in spec["nodes"]):
+        if any(n["k"] == "dataset" and n.get("cache") not in ("faulty", "faulty_ne", "faulty_mc", "faulty_front") for n in spec["nodes"]):
             return False
         return gen.spec_ok(spec)
 
@@ -59,7 +59,8 @@ class C17(HistoryProperty):
             spec["roots"] = spec["roots"] + [f"q{k + 3}", f"q{k + 4}"]
         # faulty_ne: a backend that relies on the ABC's default exists(); faulty_mc: one built on labrea's MemoryCache
         # (inherited get/set) with an index of its own for exists()
-        kind = rng.choice(["faulty", "faulty", "faulty_ne", "faulty_ne", "faulty_mc"])
+        # faulty_front: a front delegating to an inner cache (the miss signal names the inner object)
+        kind = rng.choice(["faulty", "faulty", "faulty_ne", "faulty_ne", "faulty_mc", "faulty_front"])
         for n in spec["nodes"]:
             if n["k"] == "dataset" and n.get("cache", "default") == "default":
                 n["cache"] = kind
